@@ -15,6 +15,9 @@ type ExchangeJSightSchema struct {
 	*jschema.JSchema
 
 	onceCompile            sync.Once
+	onceExample            sync.Once
+	example                []byte
+	exampleErr             error
 	catalogUserTypes       *UserTypes
 	disableExchangeExample bool
 
@@ -117,8 +120,16 @@ func (e *ExchangeJSightSchema) processAllOf(uut *StringSet) error {
 }
 
 func (e *ExchangeJSightSchema) Example() ([]byte, error) {
-	// TODO once
-	return e.JSchema.Example()
+	// The example is built only once, because the example of a schema which
+	// uses a regex user type changes from call to call.
+	e.onceExample.Do(func() {
+		var b []byte
+		b, e.exampleErr = e.JSchema.Example()
+		// The returned slice belongs to a buffer pool of the jsight-schema-core,
+		// it has to be copied to be kept.
+		e.example = append([]byte(nil), b...)
+	})
+	return e.example, e.exampleErr
 }
 
 func (e *ExchangeJSightSchema) MarshalJSON() ([]byte, error) {
